@@ -119,6 +119,7 @@ def hsStep (ts : List String) : Option String :=
     | some k, some p, some a, some b => let (o, np) := maskBytesGo k p a b; some (toHex o ++ " " ++ toString np)
     | _, _, _, _ => none
   | "nego" :: _ => some "ok"
+  | "sched" :: _ => some "ok"
   | "mx" :: _ =>
     let pk : Client.ProxyKind := match kv ts "proxy" with | some "http" => .http | some "https" => .https | some "socks5" => .socks5 | _ => .none
     let cr : Client.Cred := match kv ts "cred" with | some "user" => .user | some "userpass" => .userpass | some "userempty" => .userempty | _ => .none
